@@ -201,6 +201,13 @@ Definition cancel_keep (ob : list robj) (keys : list nat) : list nat := filter (
 Definition turn_in_table (s : st) : bool :=
   match turn s with TMid r _ _ => mem r (table s) | TIdle => false end.
 
+Section WithPolicy.
+(* Does cancelInFlightRequests store 0 into both counters after its loop?  [true] is the code as it
+   stands; [false] is the code with fixes/C16-cancel-inflight-no-zeroing.diff applied (the per-state
+   decrements of the loop are already exact).  checks/C16.py determines which of the two the tree
+   under check implements from the recorded runs. *)
+Variable zeroing : bool.
+
 Definition step (s : st) (o : op) : st :=
   match o with
   | OArrive =>
@@ -232,10 +239,14 @@ Definition step (s : st) (o : op) : st :=
       end
   | OStop => match ph s with PRun => with_ph s PStopping | _ => s end
   | OCancelInFlight =>
-      (* ... and after the loop inFlightCount.Store(0); blockingCount.Store(0) *)
-      mkSt (cancel_objs (objs s) (table s)) (cancel_keep (objs s) (table s)) 0 0 (maxif s) (mbox s) (stashq s) (turn s)
+      (* the loop decrements once per state it wins ... and afterwards (zeroing) inFlightCount.Store(0); blockingCount.Store(0) *)
+      let won := filter (fun r => negb (is_completed (objs s) r)) (table s) in
+      mkSt (cancel_objs (objs s) (table s)) (cancel_keep (objs s) (table s))
+           (if zeroing then 0 else inflight s - Z.of_nat (length won))
+           (if zeroing then 0 else blocking s - Z.of_nat (nstash (objs s) won))
+           (maxif s) (mbox s) (stashq s) (turn s)
            (match ph s with PStopping => PCancelled | p => p end)
-           (nextu s) (handled s) (ctls s) (tainted s || turn_in_table s) (overtaken s)
+           (nextu s) (handled s) (ctls s) (tainted s || (zeroing && turn_in_table s)) (overtaken s)
   | OReset =>
       match ph s with
       | PCancelled =>
@@ -365,3 +376,5 @@ Fixpoint first_taint (s : st) (ops : list op) (i : Z) : Z :=
 Definition check_case (mx : Z) (ops : list op) (expected : list (option obs)) : Z * Z * Z :=
   (first_mismatch (init mx) ops expected 0, first_taint (init mx) ops 0,
    if overtaken (run mx ops) then 1 else 0).
+
+End WithPolicy.
